@@ -431,6 +431,7 @@ func runRep(out *common.Out, args common.Args) {
 			}
 		}
 		if why != "" {
+			fmt.Fprintf(os.Stderr, "inconclusive %s (%s)\n", c, why)
 			out.Line("# inconclusive %s (%s)", c, why)
 		} else {
 			out.Line("%s => %s", c, common.Ints(s))
